@@ -120,8 +120,11 @@ def clause_key_package(prog, rep):
              "a wrong event kind is refused"),
             ("identity-vs-author", lambda og, g: "pubkey" in og.fields and og.has_call(lambda c: c.name == "identity" and last_seg(c.self_adt) == "BasicCredential")
              and og.has_call(lambda c: c.name in ("eq", "ne")), "credential identity != event author is refused"),
+            # whole-value (in)equality of the decoded tag bytes and the computed reference: an element-wise comparison over zip()
+            # only covers the shorter of the two (a prefix of the reference would be accepted)
             ("i-tag-vs-hash-ref", lambda og, g: og.has_call(lambda c: c.name == "hash_ref") and og.has_call(lambda c: c.name == "decode" and c.krate == "hex")
-             and og.has_call(lambda c: c.name in ("eq", "ne")), "an i tag different from the computed KeyPackageRef is refused"),
+             and og.has_call(lambda c: c.name in ("eq", "ne") and any(("[u8" in x or "Vec<u8" in x) for x in (c.gen or []) + [c.self_ty or ""]))
+             and not og.has_call(lambda c: c.name in ("zip", "starts_with", "ends_with")), "an i tag different from the computed KeyPackageRef is refused"),
             ("protocol-version", lambda og, g: any(isinstance(k, dict) and k.get("str") == "1.0" for _, _, k in og.consts) and og.has_call(lambda c: c.name in ("eq", "ne")),
              "a protocol version other than 1.0 is refused"),
             ("ciphersuite", lambda og, g: any(isinstance(k, dict) and str(k.get("item", "")).endswith("DEFAULT_CIPHERSUITE") for _, _, k in og.consts),
